@@ -9,4 +9,4 @@ CONSTANTS
   AdvKinds <- AllAdv
   MaxAdversarial = 2
   StrictVerify = TRUE
-INVARIANTS Emit TypeOK
+INVARIANTS Emit TypeOK StaticRulesHold MembersHashMatches SignaturesRecover GroupMembersMatch ValidWheneverSubmitted GateImpliesThresholds NoSubmissionBelowQuorum OwnSignatureIncluded WalletMatches HonestAccepted
